@@ -175,10 +175,13 @@ def select_region(body, region):
     (and optionally of the first statement after the region) -- never by line number."""
     start, end = region.get('start'), region.get('end')
     i0 = None
+    nth = region.get('nth', 1)            # the nth top-level statement that starts with the anchor text
     for i, st in enumerate(body):
         if _norm(ast.unparse(st)).startswith(_norm(start)):
-            i0 = i
-            break
+            nth -= 1
+            if nth == 0:
+                i0 = i
+                break
     if i0 is None:
         raise EngineError('region anchor not found: %r' % start)
     i1 = len(body)
@@ -432,7 +435,9 @@ class Lemma:
     ghost code with use_lemma(name, *args): its requires become obligations, its ensures is assumed."""
 
     def __init__(self, name, params, requires=(), ensures=(), induction=None, spec_defs=None, spec_recs=(), prop='',
-                 file='(lemma)'):
+                 file='(lemma)', proof=None, uses=()):
+        # proof: ghost code run after the requires are assumed (use_lemma / prove steps); uses: the lemmas it may use
+        self.proof, self.uses = proof, list(uses)
         self.name, self.params, self.requires, self.ensures = name, params, list(requires), list(ensures)
         self.induction, self.spec_defs, self.spec_recs, self.prop = induction, spec_defs or {}, list(spec_recs), prop
         self.file = file
@@ -446,6 +451,22 @@ class Lemma:
         return Env(g, vals)
 
     def apply(self, eng, args):
+        from .builtins import ANY
+        if any(a is ANY for a in args):
+            # the lemma for all values of the parameters marked ANY: forall(requires ==> ensures)
+            bound, vals = [], {}
+            for (p, t), a in zip(self.params, args):
+                if a is ANY:
+                    b = z3.FreshConst(t.sort(), 'any_' + p)
+                    bound.append(b)
+                    vals[p] = SV(t, b)
+                else:
+                    vals[p] = a
+            env = self._env(eng, vals)
+            rq = [eng._b(eng.spec_truth(r, env)) for r in self.requires]
+            en = [eng._b(eng.spec_truth(e, env)) for e in self.ensures]
+            eng.assume(z3.ForAll(bound, z3.Implies(z3.And(*rq) if rq else z3.BoolVal(True), z3.And(*en))))
+            return
         env = self._env(eng, {p: a for (p, _), a in zip(self.params, args)})
         for k, r in enumerate(self.requires):
             eng.oblige(eng._b(eng.spec_truth(r, env)), 'lemma-pre:%s:%d@%d' % (self.name, k, eng.line))
@@ -464,9 +485,13 @@ def verify_lemma(lem, timeout_ms=10000):
                     for p, t in lem.params}
             eng.inputs = dict(vals)
             env = lem._env(eng, vals)
+            eng.lemmas = {l.name: l for l in lem.uses}
+            eng.spec_fallback = env
             if lem.induction is None:
                 for r in lem.requires:
                     eng.assume(eng._b(eng.spec_truth(r, env)))
+                if lem.proof:
+                    eng.exec_src(lem.proof, env)
                 for k, e in enumerate(lem.ensures):
                     eng.oblige(eng._b(eng.spec_truth(e, env)), 'lemma:%d' % k)
                 return
